@@ -140,7 +140,7 @@ func (c canLoader) LoadTopCandidates(blockHash common.Hash) types.DeputyNodes {
 	}
 	for i, n := range list {
 		acc := c.am.GetAccount(n.GetAddress())
-		dn := types.NewDeputyNode(acc.GetVotes(), uint32(i), n.GetAddress(), acc.GetCandidate()[types.CandidateKeyNodeID])
+		dn := types.NewDeputyNode(n.GetTotal(), uint32(i), n.GetAddress(), acc.GetCandidate()[types.CandidateKeyNodeID]) // as DPoVP.LoadTopCandidates after its fix: the votes the list was ranked by
 		result = append(result, dn)
 	}
 	return result
